@@ -39,7 +39,8 @@ CONSTANTS
   Code_RangeEndIsBegin,           \* range.go: end parsed from rangeSplit[0]: "a-b" becomes a-a (and a malformed end goes unnoticed)
   Code_NoScalarSubtraction,       \* scheduler.go: cpu/mem of a launched task are not subtracted from the remaining offer
   Code_StaticPortsNotReserved,    \* scheduler.go: static port ranges are requested but not subtracted: a dynamic port can fall inside
-  Code_FitsIgnoresPortClasses,    \* match.go counts free ports of any number; makeTask takes Min() of ports >= 9000 / >= 30000 (panics on none)
+  Code_FitsIgnoresPortClasses,    \* match.go counts free ports of any number although makeTask only takes ports >= 9000 / >= 30000
+  Code_MinOnEmptyPanics,          \* scheduler.go: Ranges.Min() of no such port: index out of range, the core dies (FALSE: the descriptor is skipped)
   Tier                            \* "quick" | "thorough": size of the catalogues
 
 DataPortMin == 9000     \* scheduler.go: availPorts.Remove({0, 8999})
@@ -420,6 +421,7 @@ PlacementOK(offers, descs, obs) ==
 (*       pre: offer id -> descriptors pre-matched by machine_id,            *)
 (*       todo: descriptors still to deploy (ids, in request order),         *)
 (*       undep: undeployable descriptors, processed: offers done,           *)
+(*       nodecl: offers taken off the decline list,                         *)
 (*       accepts: sequence of [offer, tasks], declined, panic]              *)
 (* The per-offer section of the code runs under one mutex: it is ONE action *)
 (* (ProcessOffer); offers are taken in any order (one goroutine each).      *)
@@ -454,27 +456,39 @@ RoundStart(offers, descs, exec) ==
       todo |-> idsOf(free),
       \* no offer from the required machine: undeployable at once (appended walking from the end)
       undep |-> Reverse(idsOf(lost)),
-      processed |-> {}, accepts |-> <<>>, declined |-> {}, panic |-> FALSE]
+      processed |-> {}, nodecl |-> {}, accepts |-> <<>>, declined |-> {}, panic |-> FALSE]
 
+\* one port >= DataPortMin per TCP channel.  No ports resource left at all: the code gives up on the
+\* descriptor (return nil); ports left but none of the class: Ranges.Min() of nothing (fatal)
 RECURSIVE TakeDyn(_, _, _)
 TakeDyn(n, free, taken) ==
-  IF n = 0 THEN [ok |-> TRUE, free |-> free, taken |-> taken]
+  IF n = 0 THEN [ok |-> TRUE, fatal |-> FALSE, free |-> free, taken |-> taken]
   ELSE LET cand == {p \in free : p >= DataPortMin} IN
-       IF cand = {} THEN [ok |-> FALSE, free |-> free, taken |-> taken]   \* Ranges.Min() on empty ranges: panic
+       IF cand = {} THEN [ok |-> FALSE, fatal |-> free # {}, free |-> free, taken |-> taken]
        ELSE TakeDyn(n - 1, free \ {Min(cand)}, Append(taken, Min(cand)))
 
-\* makeTaskForMesosResources: [ok, rem, task]
+\* makeTaskForMesosResources: [ok, fatal, rem, task]; not ok = no port of the needed class is left (the
+\* dynamic ports taken before that are gone from the remaining offer all the same)
 MakeTask(d, rem, exec) ==
   LET static == PortSet(ImplStatic(d))
       free0 == IF Code_StaticPortsNotReserved THEN rem.ports ELSE rem.ports \ static
       dyn == TakeDyn(d.tcp_inbound, free0, <<>>)
       cand == {p \in dyn.free : p >= CtlPortMin}
-  IN IF ~dyn.ok \/ cand = {} THEN [ok |-> FALSE, rem |-> rem, task |-> [desc |-> d.id]]
+  IN IF ~dyn.ok \/ cand = {}
+       THEN [ok |-> FALSE, fatal |-> Code_MinOnEmptyPanics /\ (IF dyn.ok THEN dyn.free # {} ELSE dyn.fatal),
+             \* the offer is taken off the decline list between the dynamic ports and the control port
+             undecl |-> dyn.ok,
+             rem |-> [rem EXCEPT !.ports = dyn.free], task |-> [desc |-> d.id]]
      ELSE LET ctl == Min(cand)
               cpu == d.cpu + exec.cpu
               mem == d.mem + exec.mem
               portset == static \cup Range(dyn.taken) \cup {ctl}
-          IN [ok |-> TRUE,
+          IN IF ~Code_NoScalarSubtraction /\ (cpu > rem.cpu \/ mem > rem.mem)
+               \* repaired code: task + executor share must still be there, else the task is not built (ports already taken)
+               THEN [ok |-> FALSE, fatal |-> FALSE, undecl |-> TRUE,
+                     rem |-> [rem EXCEPT !.ports = dyn.free \ {ctl}], task |-> [desc |-> d.id]]
+             ELSE
+             [ok |-> TRUE, fatal |-> FALSE, undecl |-> TRUE,
               rem |-> [cpu |-> IF Code_NoScalarSubtraction THEN rem.cpu ELSE rem.cpu - cpu,
                        mem |-> IF Code_NoScalarSubtraction THEN rem.mem ELSE rem.mem - mem,
                        ports |-> dyn.free \ {ctl}],
@@ -490,7 +504,7 @@ RunPre(o, descs, exec, list, st) ==        \* FOR_PREMATCH_DESCRIPTORS: a failur
   ELSE LET d == ById(descs, Head(list)) IN
        IF ~Matches(o, d, st.rem) THEN [st EXCEPT !.undep = Append(@, d.id)]
        ELSE LET m == MakeTask(d, st.rem, exec) IN
-            IF ~m.ok THEN [st EXCEPT !.panic = TRUE]
+            IF ~m.ok THEN (IF m.fatal THEN [st EXCEPT !.panic = TRUE] ELSE [st EXCEPT !.rem = m.rem, !.undecl = @ \/ m.undecl])  \* break, silently
             ELSE RunPre(o, descs, exec, Tail(list), [st EXCEPT !.rem = m.rem, !.tasks = Append(@, m.task)])
 
 RECURSIVE RunTodo(_, _, _, _, _)
@@ -499,12 +513,13 @@ RunTodo(o, descs, exec, list, st) ==       \* FOR_DESCRIPTORS: a failure skips t
   ELSE LET d == ById(descs, Head(list)) IN
        IF ~Matches(o, d, st.rem) THEN RunTodo(o, descs, exec, Tail(list), [st EXCEPT !.left = Append(@, d.id)])
        ELSE LET m == MakeTask(d, st.rem, exec) IN
-            IF ~m.ok THEN [st EXCEPT !.panic = TRUE, !.left = @ \o list]
+            IF ~m.ok THEN (IF m.fatal THEN [st EXCEPT !.panic = TRUE, !.left = @ \o list]
+                           ELSE RunTodo(o, descs, exec, Tail(list), [st EXCEPT !.rem = m.rem, !.left = Append(@, d.id), !.undecl = @ \/ m.undecl]))
             ELSE RunTodo(o, descs, exec, Tail(list), [st EXCEPT !.rem = m.rem, !.tasks = Append(@, m.task)])
 
 OfferResult(r, oid) ==
   LET o == ById(r.offers, oid)
-      s0 == [rem |-> r.rem[oid], tasks |-> <<>>, undep |-> r.undep, panic |-> FALSE, left |-> <<>>]
+      s0 == [rem |-> r.rem[oid], tasks |-> <<>>, undep |-> r.undep, panic |-> FALSE, left |-> <<>>, undecl |-> FALSE]
       s1 == RunPre(o, r.descs, r.exec, r.pre[oid], s0)
       \* both loops walk their slice from the last index down
       s2 == IF s1.undep = <<>> /\ ~s1.panic THEN RunTodo(o, r.descs, r.exec, Reverse(r.todo), s1)
@@ -513,6 +528,7 @@ OfferResult(r, oid) ==
                !.todo = Reverse(s2.left),
                !.undep = s2.undep,
                !.processed = @ \cup {oid},
+               !.nodecl = IF s2.undecl THEN @ \cup {oid} ELSE @,
                !.panic = s2.panic,
                !.pc = IF s2.panic THEN "panic" ELSE "offers",
                \* the ACCEPT call follows the section; a panic inside it means no call
@@ -524,11 +540,20 @@ ProcessOffer(oid) ==
   /\ rd' = OfferResult(rd, oid)
 
 Deployed(r) == UNION {{r.accepts[i].tasks[j].desc : j \in 1..Len(r.accepts[i].tasks)} : i \in 1..Len(r.accepts)}
-FinishResult(r) == [r EXCEPT !.pc = "done", !.declined = Ids(r.offers) \ UsedOffers(r.accepts)]
+FinishResult(r) == [r EXCEPT !.pc = "done", !.declined = Ids(r.offers) \ (UsedOffers(r.accepts) \cup r.nodecl)]
 Finish ==
   /\ rd.pc = "offers"
   /\ rd.processed = Ids(rd.offers) \/ (rd.undep # <<>> /\ rd.processed = {})
   /\ rd' = FinishResult(rd)
+
+\* a whole round with the offers taken in the given order (a sequence of offer ids)
+RECURSIVE RunOrder(_, _)
+RunOrder(r, ord) ==
+  IF ord = <<>> \/ r.pc = "panic" \/ (r.undep # <<>> /\ r.processed = {}) THEN r
+  ELSE RunOrder(OfferResult(r, Head(ord)), Tail(ord))
+FinalOf(r, ord) == LET e == RunOrder(r, ord) IN IF e.pc = "panic" THEN e ELSE FinishResult(e)
+RECURSIVE Perms(_)
+Perms(S) == IF S = {} THEN {<<>>} ELSE UNION {{<<x>> \o p : p \in Perms(S \ {x})} : x \in S}
 
 \* the observation of a finished round in the vocabulary of section 4
 ObsTask(t) == [desc |-> t.desc, cpu |-> t.cpu, mem |-> t.mem,
@@ -565,7 +590,12 @@ DescCat ==
      [id |-> "d6", constraints |-> <<Ct("machine_id", "hX")>>, cpu |-> 100, mem |-> 32, static_expr |-> "",
       tcp_inbound |-> 0, ipc_inbound |-> 0, controllable |-> TRUE],
      [id |-> "d7", constraints |-> <<Ct("rack", "r2"), Ct("machine_id", "hA")>>, cpu |-> 1500, mem |-> 64, static_expr |-> "",
-      tcp_inbound |-> 0, ipc_inbound |-> 0, controllable |-> TRUE] >>
+      tcp_inbound |-> 0, ipc_inbound |-> 0, controllable |-> TRUE],
+     \* chains: <<task class, group role, task role>> (farthest first)
+     [id |-> "d8", chain |-> << <<Ct("rack", "r9")>>, <<Ct("rack", "r2")>>, <<>> >>, cpu |-> 400, mem |-> 64, static_expr |-> "",
+      tcp_inbound |-> 1, ipc_inbound |-> 0, controllable |-> FALSE],
+     [id |-> "d9", chain |-> << <<Ct("machine_id", "hB")>>, <<Ct("rack", "r1")>>, <<Ct("machine_id", "hA")>> >>, cpu |-> 300, mem |-> 64,
+      static_expr |-> "9002", tcp_inbound |-> 0, ipc_inbound |-> 0, controllable |-> TRUE] >>
 
 \* strictly increasing index sequences of length 1..n
 IncSeqs(m, n) == {s \in UNION {[1..k -> 1..m] : k \in 1..n} : \A i \in 1..(Len(s) - 1) : s[i] < s[i + 1]}
